@@ -190,12 +190,13 @@ def stmts (sc : Scope) : Tmpl → Stmt
   | .block name _ _ _ => .exprStmt (.call name [])
   | .call e bodyArgs body =>
     let bsc : Scope := { top := false, cd := true, bind := true, loops := sc.loops || refsLoop body }
-    .seq (.setNextCaller
-            (.seq (callDefs { sc with top := false } body)
-                  (.defn 0 bodyArgs { ownLoops := ownsLoops sc body, deco := false, lex := true }
-                     (.seq (.seq (bodyHoist bsc body) (.prim .getWriter))
-                           (.seq (stmts bsc body) (.ret emptyStr))))))
-         (.tryFinally (.write e) (.prim .clearNextCaller))
+    .seq (.prim .saveNextCaller)
+      (.seq (.setNextCaller
+              (.seq (callDefs { sc with top := false, cd := false } body)
+                    (.defn 0 bodyArgs { ownLoops := ownsLoops sc body, deco := false, lex := true }
+                       (.seq (.seq (bodyHoist bsc body) (.prim .getWriter))
+                             (.seq (stmts bsc body) (.ret emptyStr))))))
+           (.tryFinally (.write e) (.prim .restoreNextCaller)))
   | .textTag fs s =>
     if fs.isEmpty then .write (.lit s)
     else .seq (.prim .pushWriter)
